@@ -719,6 +719,13 @@ public:
     try {
       static_cast<Converter&>(cvt).PropagateResult(
             GetConstraint(i), lb, ub, ctx);
+    } catch (const mp::Error& err) {      // keep the result code (infeasibility)
+      MP_RAISE_WITH_CODE(err.exit_code(),
+                         Converter::GetTypeName() +
+                         std::string(": propagating result for constraint ") +
+                         std::to_string(i) + " of type '" +
+                         Constraint::GetTypeName() +
+                         "':  " + err.what());
     } catch (const std::exception& exc) {
       MP_RAISE(Converter::GetTypeName() +
                              std::string(": propagating result for constraint ") +
@@ -744,6 +751,10 @@ public:
     MP_UNUSED(cvt);
     try {
       return ConvertAllFrom(i_cvt_last_);
+    } catch (const mp::Error& err) {      // keep the result code (infeasibility)
+      MP_RAISE_WITH_CODE(err.exit_code(),
+                         Converter::GetTypeName() + std::string(": ")
+                         + err.what());
     } catch (const std::exception& exc) {
       MP_RAISE(Converter::GetTypeName() + std::string(": ")
                              + exc.what());
